@@ -414,3 +414,37 @@ Definition wrapper_status (wr : wrapper) (needs : list nat) (child_lines : nat) 
   end.
 
 Definition status_ok (s : status) : bool := match s with Exited 0 => true | _ => false end.
+
+(* ------------------------------------------------------------------ *)
+(* the two read loops of util/file.cc built on PartialRead *)
+
+(* std::size_t ReadOrEOF(int fd, void *to, std::size_t amount):
+     while (remaining) { ret = PartialRead(fd, to, remaining); if (!ret) return amount - remaining; remaining -= ret; to += ret; } *)
+Fixpoint read_or_eof (fuel : nat) (fd remaining : Z) (acc : list Z) (orc : list outcome) : res (list Z) * list event * list outcome :=
+  if remaining <=? 0 then (Val acc, [], orc) else
+  match fuel with
+  | O => (Fuel, [], orc)
+  | S f =>
+    match PartialRead fd remaining orc with
+    | (Val [], ev, orc') => (Val acc, ev, orc')
+    | (Val d, ev, orc') =>
+      match read_or_eof f fd (remaining - blen d) (acc ++ d) orc' with (r, ev', orc'') => (r, ev ++ ev', orc'') end
+    | (r, ev, orc') => (cast r, ev, orc')
+    end
+  end.
+Definition ReadOrEOF (fd amount : Z) : M (list Z) := fun orc => read_or_eof (S (length orc)) fd amount [] orc.
+
+(* void ReadOrThrow(int fd, void *to, std::size_t amount): the same loop, but end of file is an EndOfFileException *)
+Fixpoint read_or_throw (fuel : nat) (fd remaining : Z) (acc : list Z) (orc : list outcome) : res (list Z) * list event * list outcome :=
+  if remaining <=? 0 then (Val acc, [], orc) else
+  match fuel with
+  | O => (Fuel, [], orc)
+  | S f =>
+    match PartialRead fd remaining orc with
+    | (Val [], ev, orc') => (Exn, ev, orc')
+    | (Val d, ev, orc') =>
+      match read_or_throw f fd (remaining - blen d) (acc ++ d) orc' with (r, ev', orc'') => (r, ev ++ ev', orc'') end
+    | (r, ev, orc') => (cast r, ev, orc')
+    end
+  end.
+Definition ReadOrThrow (fd amount : Z) : M (list Z) := fun orc => read_or_throw (S (length orc)) fd amount [] orc.
